@@ -364,6 +364,12 @@ static const char *infer_expr_struct_type(CG *cg, ASTNode *node) {
         return node->as.call.return_struct_type_name;
     }
 
+    /* A call whose node was not annotated: the callee's declared return type says which struct it yields */
+    if (node->type == AST_CALL && node->as.call.name) {
+        Function *callee = env_get_function(cg->env, node->as.call.name);
+        if (callee && callee->return_struct_type_name) return callee->return_struct_type_name;
+    }
+
     if (node->type == AST_FIELD_ACCESS) {
         /* Recursively determine: what struct type does the object have? */
         const char *obj_type = infer_expr_struct_type(cg, node->as.field_access.object);
